@@ -14,7 +14,7 @@ ENGINES = [
          kind_free_text="E1: crash-isolating forked children (death attributed to the exact case), RLIMIT_AS memory allowance"),
     dict(name="rustext", path="vf/rustext.py", serves_properties=["C03", "C15"],
          kind_free_text="rebuilds the PyO3 crates from the working tree (cargo --offline) and loads them ahead of stale .so files; pure-Python twin loader"),
-    dict(name="interpose", path="vf/interpose.py", serves_properties=["C07"],
+    dict(name="interpose", path="vf/interpose.py", serves_properties=["C07", "C09"],
          kind_free_text="E2: Python-level syscall interposer with three policies: deterministic baton scheduler + DFS schedule explorer, crash snapshots, fault injection"),
     dict(name="cgit", path="vf/cgit.py", serves_properties=["C20", "C03"],
          kind_free_text="hermetic C git 2.39.5 subprocess oracle (differential)"),
@@ -23,6 +23,14 @@ NOTES = ("Run ./check <ID> quick|thorough from /verif.  Exit 0/1/2 = held / VIOL
          "known_findings.json lists repaired defects (status fixed, regression inputs) and open findings.")
 NOT_APPLICABLE = {}
 CHECKS = {
+    "C09": dict(
+        level="fault_enumeration",
+        engine="vf+interpose",
+        technique="exhaustive crash-point enumeration: directory snapshot before every interposed file-system event whose preceding events changed the state (plus power-loss variants of un-fsynced files), each snapshot judged by a fresh Repo, an independent closure walker and git fsck",
+        text="For 23 repository-changing operations x object/ref storage layouts, every boundary between two file-system calls is materialised as a copy of the repository (process-crash model; with core.fsyncObjectFiles also power-loss variants) and must open, keep every ref at its old or new value naming an intact object with readable closure, keep every previously reachable object readable and identical, expose only valid packs/loose files, and pass git fsck. Exhaustive over crash points per scenario; scenarios are a fixed catalogue.",
+        design_ref="DESIGN.md §4 C09, §3 E2",
+        note="crash granularity = Python-level FS call (buffered data lost, completed writes kept); directory operations ordered/durable; leftover lock/temp files allowed; commit-graph validity is left to C14",
+    ),
     "C07": dict(
         level="fault_enumeration",
         engine="vf+interpose",
